@@ -614,7 +614,7 @@ func (p *Parse) checkDepTName(ty *ast.VarType, dm *map[string]bool, dmj *map[str
 				ty.TypeSt = strings.Replace(ty.TypeSt, mod+"::", "", 1)
 			}
 		}
-	} else if ty.Type == token.TVector {
+	} else if ty.Type == token.TVector || ty.Type == token.TArray {
 		p.checkDepTName(ty.TypeK, dm, dmj)
 	} else if ty.Type == token.TMap {
 		p.checkDepTName(ty.TypeK, dm, dmj)
@@ -655,7 +655,7 @@ func (p *Parse) analyzeDefault() {
 				if mb == nil || enum == nil {
 					p.parseErr("can not find default value" + r.Default)
 				}
-				defValue := enum.Name + "_" + utils.UpperFirstLetter(mb.Key)
+				defValue := utils.UpperFirstLetter(enum.Name) + "_" + utils.UpperFirstLetter(mb.Key)
 				var currModule string
 				if p.opt.ModuleCycle {
 					currModule = p.tarsFile.ProtoName + "_" + p.tarsFile.Module.Name
